@@ -189,7 +189,20 @@ func (r *Run) classify(e *Exch, by map[int]*OResp) *cls {
 			c.haveAge = true
 		}
 		st := e.Status
-		c.lifeLo, c.lifeHi, c.lifeSrc = lifetime(e.Header, st)
+		lh := e.Header
+		if v, ok := parseCC(e.Header)["no-cache"]; ok && v != "" && c.B != nil {
+			// fields named by a qualified no-cache are withheld from the caller but still stored: freshness is
+			// a matter of the stored header fields
+			lh = e.Header.Clone()
+			eff, _ := r.effectiveStored(c.B, e.SeqInv)
+			for _, f := range strings.Split(v, ",") {
+				f = http.CanonicalHeaderKey(strings.TrimSpace(f))
+				if _, have := lh[f]; !have && len(eff[f]) > 0 {
+					lh[f] = eff[f]
+				}
+			}
+		}
+		c.lifeLo, c.lifeHi, c.lifeSrc = lifetime(lh, st)
 	}
 	return c
 }
